@@ -190,6 +190,11 @@ def run(ck):
     for why, at in bad.items(): r1.instance('bin/main.c:sanitize_utf8', ok=False, wclass='echo-buffer:' + why.split('(')[0][:20], what=f'{why} ({at})')
     for _ in range(max(n - len(bad), 0)): r1.instance('bin/main.c:sanitize_utf8', ok=True)
     if n < 10: raise AnalysisBroken('sanitize_utf8: buffer writes not found')
+    # ---- R20.5 the tool's own decoder (a copy of src/utf8_decode.c with a static cursor) - the echo clause needs it to
+    # accept every well-formed sequence and to report the byte index of each character
+    if dec is None: raise AnalysisBroken('bin/utf8_decode.c is not built')
+    from rules import decoder
+    decoder.run(ck, dec, site='bin/utf8_decode.c:utf8_decode_next', ids=('R20.5a', 'R20.5b', 'R20.5c'), fld='')
     ck.undecided('echo clause: that a well-formed line without control characters is echoed unchanged (sanitize_utf8\'s look-ahead copy loop over the static decoder is not extracted); stdio/getline behaviour')
     ck.assume('getline returns a NUL-terminated buffer of `read` bytes; files are processed from the last argument to the first (the statement quantifies over single files)')
     ck.notes.append('bin/main.h also defines sanitize(), which has an unbounded static buffer but is not reachable from main (used by tests only): out of scope.')
@@ -209,8 +214,8 @@ def guard(p, k, pos, L, size):
     """a branch before event k that the path left on the side where  pos + K < size  with K >= L"""
     if pos.isdigit() and re.fullmatch(r"strlen#\d+'*", L):
         # constant position: the guard was folded away by the analyser; decide it here
-        sp = [x for x in p.events[:k] if x[0] == 'call' and x[1] == 'sprintf' and x[2][:2] == ('buf', '"0x%02x"')]
-        if sp and any(x[0] == 'cond' and re.search(r'(< 32\)|== 127\))$', x[1]) and x[2] for x in p.events[:k]): return int(pos) + 4 < size
+        w = hex_width(p, k)
+        if w is not None: return int(pos) + w < size
     for e in reversed(p.events[:k]):
         if e[0] == 'set' and e[1] == 'pos': break
         if e[0] != 'cond': continue
@@ -221,10 +226,24 @@ def guard(p, k, pos, L, size):
         if not bound_ok: continue
         if K == L: return True
         if K.isdigit() and re.fullmatch(r"strlen#\d+'*", L):
-            # L = strlen(buf) right after sprintf(buf, "0x%02x", c) with c < 32 or c == 127: exactly 4 characters
-            sp = [x for x in p.events[:k] if x[0] == 'call' and x[1] == 'sprintf' and x[2][:2] == ('buf', '"0x%02x"')]
-            if sp and int(K) >= 4 and any(x[0] == 'cond' and re.search(r'(< 32\)|== 127\))$', x[1]) and x[2] for x in p.events[:k]): return True
+            # L = strlen(buf) right after sprintf(buf, "0x%02x", c): 4 characters for c in 0..255, 10 for a negative int
+            w = hex_width(p, k)
+            if w is not None and int(K) >= w: return True
     return False
+
+
+def hex_width(p, k):
+    """number of characters the last sprintf(buf, "0x%02x", c) before event k can produce: 4 when c is known to be in
+    0..255 on this path (c < 32 or c == 127 taken AND c not negative), 10 otherwise (%x prints a negative int as eight
+    hex digits); None if there is no such sprintf"""
+    sp = [x for x in p.events[:k] if x[0] == 'call' and x[1] == 'sprintf' and x[2][:2] == ('buf', '"0x%02x"')]
+    if not sp: return None
+    c = sp[-1][2][2]
+    before = p.events[:p.events.index(sp[-1])]
+    small = any(x[0] == 'cond' and x[2] and x[1] in (f'({c} < 32)', f'({c} == 127)') for x in before)
+    nonneg = (any(x[0] == 'cond' and x[2] and x[1] in (f'({c} > 0)', f'({c} >= 0)', f'({c} == 127)') for x in before)
+              or any(x[0] == 'cond' and not x[2] and x[1] in (f'({c} < 0)', f'({c} <= 0)') for x in before))
+    return 4 if (small and nonneg) else 10
 
 
 def pos_bounded(p, k, ix, size):
